@@ -123,43 +123,8 @@ def check(run: Run) -> None:
             base = a[1] if a[0] == "upd" else a
             run.check(base == ("gvisit", rcn), "C04.R7", rc, s_, "visit_Call returns the generic_visit-ed call (arguments and keywords are rewritten too)", f"_rewrite_captured_vars.visit_Call returns {show(a)[:80]} on some path without visiting the call's arguments: captured variables inside them are not frozen (and never reach the constant gate)", "super().generic_visit(node)", show(a))
 
-    # ---------------- R3: snapshot built eagerly
-    init = cls.methods.get("__init__")
-    if init is None:
-        raise AnalysisError("anchor vanished: _rewrite_captured_vars.__init__")
-    _check_merge_order(run, ctx, init)
-    pa = m.find_func("parse_as_ast", in_module="func_adl.util_ast")
-    c3 = TermCtx(m, max_depth=1, opaque={"_parse_source_for_lambda", "global_getclosurevars", "lambda_unwrap"})
-    fp = c3.analysis(pa)
-    src = ("param", pa.pos_params[0])
-    found = False
-    for s, n in fp.returns():
-        t = strip_sites(fp.term_of(s.value, n))
-        if t[0] == "tvisit" and t[1].endswith("_resolve_called_lambdas") and t[2][0] == "tvisit" and t[2][1].endswith("_rewrite_captured_vars"):
-            found = True
-            from ..lib import call_events
-
-            ctor = [e for e in call_events(c3, pa, lambda nm: nm == cls.name) if e.args]
-            a0 = ctor[0].args[0] if len(ctor) == 1 else ("top", "?")
-            ok = len(ctor) == 1 and a0[0] == "app" and a0[1][0] == "global" and a0[1][1].endswith("global_getclosurevars") and a0[2] == (src,)
-            run.check(ok, "C04.R3", pa, s, "the rewriter is built from global_getclosurevars(callable) inside parse_as_ast", "the capture table is not built from the callable's closure during the operator call")
-            inner = t[2][2]
-            ok2 = any(a[0] == "app" and a[1][1].endswith("_parse_source_for_lambda") for a in unphi_terms(inner))
-            run.check(ok2, "C04.R3", pa, s, "the rewriter is applied to the recovered source lambda", f"capture rewriting is applied to {show(inner)[:80]}")
-    run.check(found, "C04.R3", pa, pa.node, "callable path: _resolve_called_lambdas().visit(_rewrite_captured_vars(closure).visit(src))", "parse_as_ast no longer rewrites captured variables and then resolves called lambdas for callables")
-    gc = m.find_func("global_getclosurevars", in_module="func_adl.util_ast")
-    fg = TermCtx(m, max_depth=1).analysis(gc)
-    rt = strip_sites(fg.return_term())
-    ok = rt[0] == "app" and rt[1] == ("global", "inspect.getclosurevars") and rt[2] == (("param", gc.pos_params[0]),)
-    run.check(ok, "C04.R3", gc, gc.node, "global_getclosurevars returns inspect.getclosurevars(f) (a snapshot)", f"global_getclosurevars returns {show(rt)[:100]}")
-    ups = [c for c in calls_in(gc) if isinstance(c.func, ast.Attribute) and c.func.attr == "update" and c.args]
-    ok_g = False
-    for c in ups:
-        tgt = strip_sites(fg.term_of(c.func.value))
-        src_ = strip_sites(fg.term_of(c.args[0]))
-        if tgt == ("attr", rt, "globals") and src_ == ("attr", ("param", gc.pos_params[0]), "__globals__"):
-            ok_g = True
-    run.check(ok_g, "C04.R3", gc, gc.node, "the snapshot's globals are completed with all of f.__globals__", "the closure snapshot is not completed with *all* module globals of the callable (inspect.getclosurevars only reports names used directly by f): a global referenced only inside a nested lambda, at any depth, is neither frozen nor checked", "cv.globals.update(f.__globals__)")
+    # ---------------- R3 / R6: snapshot built eagerly, from the callable's own scopes, inner scope wins
+    check_snapshot(run, ctx, m, cls)
 
     # ---------------- R4, R5 (shared with C13.R3)
     from .c13 import _check_gate
@@ -288,3 +253,45 @@ def _check_merge_order(run: Run, ctx, init: FuncInfo) -> None:
         last_g = max(i for i, s in enumerate(srcs) if s == g)
         last_n = max(i for i, s in enumerate(srcs) if s == nl)
         run.check(last_n > last_g, "C04.R6", init, writes[last_g][2], "closure variables are applied after module globals", "module globals are applied after the closure variables: a lambda referring to a local of the enclosing function captures a same-named module global instead (inner scope must win)", "dict(cv.globals); .update(cv.nonlocals)")
+
+
+def check_snapshot(run: Run, ctx, m, cls) -> None:
+    """the table captured values are read from: a fresh dict built during the operator call from the callable's own
+    closure and module globals (also C13.R4: a value can only be embedded exactly if it is the callable's binding)."""
+    init = cls.methods.get("__init__")
+    if init is None:
+        raise AnalysisError("anchor vanished: _rewrite_captured_vars.__init__")
+    _check_merge_order(run, ctx, init)
+    pa = m.find_func("parse_as_ast", in_module="func_adl.util_ast")
+    c3 = TermCtx(m, max_depth=1, opaque={"_parse_source_for_lambda", "global_getclosurevars", "lambda_unwrap"})
+    fp = c3.analysis(pa)
+    src = ("param", pa.pos_params[0])
+    found = False
+    for s, n in fp.returns():
+        t = strip_sites(fp.term_of(s.value, n))
+        if t[0] == "tvisit" and t[1].endswith("_resolve_called_lambdas") and t[2][0] == "tvisit" and t[2][1].endswith("_rewrite_captured_vars"):
+            found = True
+            from ..lib import call_events
+
+            ctor = [e for e in call_events(c3, pa, lambda nm: nm == cls.name) if e.args]
+            a0 = ctor[0].args[0] if len(ctor) == 1 else ("top", "?")
+            ok = len(ctor) == 1 and a0[0] == "app" and a0[1][0] == "global" and a0[1][1].endswith("global_getclosurevars") and a0[2] == (src,)
+            run.check(ok, "C04.R3", pa, s, "the rewriter is built from global_getclosurevars(callable) inside parse_as_ast", "the capture table is not built from the callable's closure during the operator call")
+            inner = t[2][2]
+            ok2 = any(a[0] == "app" and a[1][1].endswith("_parse_source_for_lambda") for a in unphi_terms(inner))
+            run.check(ok2, "C04.R3", pa, s, "the rewriter is applied to the recovered source lambda", f"capture rewriting is applied to {show(inner)[:80]}")
+    run.check(found, "C04.R3", pa, pa.node, "callable path: _resolve_called_lambdas().visit(_rewrite_captured_vars(closure).visit(src))", "parse_as_ast no longer rewrites captured variables and then resolves called lambdas for callables")
+    gc = m.find_func("global_getclosurevars", in_module="func_adl.util_ast")
+    fg = TermCtx(m, max_depth=1).analysis(gc)
+    rt = strip_sites(fg.return_term())
+    ok = rt[0] == "app" and rt[1] == ("global", "inspect.getclosurevars") and rt[2] == (("param", gc.pos_params[0]),)
+    run.check(ok, "C04.R3", gc, gc.node, "global_getclosurevars returns inspect.getclosurevars(f) (a snapshot)", f"global_getclosurevars returns {show(rt)[:100]}")
+    ups = [c for c in calls_in(gc) if isinstance(c.func, ast.Attribute) and c.func.attr == "update" and c.args]
+    ok_g = False
+    for c in ups:
+        tgt = strip_sites(fg.term_of(c.func.value))
+        src_ = strip_sites(fg.term_of(c.args[0]))
+        if tgt == ("attr", rt, "globals") and src_ == ("attr", ("param", gc.pos_params[0]), "__globals__"):
+            ok_g = True
+    run.check(ok_g, "C04.R3", gc, gc.node, "the snapshot's globals are completed with all of f.__globals__", "the closure snapshot is not completed with *all* module globals of the callable (inspect.getclosurevars only reports names used directly by f): a global referenced only inside a nested lambda, at any depth, is neither frozen nor checked", "cv.globals.update(f.__globals__)")
+
